@@ -26,7 +26,7 @@ Edits == {"none", "ridge-first-point-twice", "ridge-last-point-twice", "ridge-si
           "trench-point-twice", "segment-zero-length", "segment-zero-thickness", "polygon-vertex-twice", "polygon-zero-area",
           "min-equals-max-depth", "plume-zero-width", "spreading-zero", "slab-ridge-point-twice", "fault-vertical-zero-thickness",
           "model-range-touches-feature-bottom", "model-range-touches-feature-top", "model-range-empty",
-          "dip-zero", "dip-180", "dips-nearly-equal", "plume-eccentricity-near-one", "plume-single-section"}
+          "dip-zero", "dip-180", "dips-nearly-equal", "plume-eccentricity-near-one", "plume-single-section", "slab-vertical-untapered"}
 Ridge(sph, e, y0, y1) ==
   CASE e = "ridge-first-point-twice"  -> << <<XY(sph, 500, y0), XY(sph, 500, y0), XY(sph, 500, y1)>> >>
     [] e = "ridge-last-point-twice"   -> << <<XY(sph, 500, y0), XY(sph, 500, y1), XY(sph, 500, y1)>> >>
@@ -58,6 +58,7 @@ KinkSlabE(sph, e) ==
        XY(sph, 2000, 800), 0, 600*Km,
        CASE e = "segment-zero-length" -> <<Segment(200*Km, <<100*Km>>, <<0>>, <<30, 60>>), Segment(0, <<100*Km>>, <<0>>, <<60>>), Segment(200*Km, <<100*Km, 50*Km>>, <<0>>, <<60>>)>>
          [] e = "segment-zero-thickness" -> <<Segment(200*Km, <<100*Km, 0>>, <<0>>, <<30, 60>>), Segment(200*Km, <<0>>, <<0>>, <<60>>)>>
+         [] e = "slab-vertical-untapered" -> <<Segment(300*Km, <<100*Km>>, <<0>>, <<90>>)>>      \* the tip is at 300 km depth, the taper distance is 0
          [] e = "dip-zero" -> <<Segment(200*Km, <<100*Km>>, <<0>>, <<0>>), Segment(200*Km, <<100*Km>>, <<0>>, <<0, 40>>)>>
          [] e = "dip-180" -> <<Segment(200*Km, <<100*Km>>, <<0>>, <<90, 180>>), Segment(100*Km, <<100*Km>>, <<0>>, <<180>>)>>
          [] e = "dips-nearly-equal" -> <<Segment(200*Km, <<100*Km>>, <<0>>, <<30, Dec(300000001, -7)>>), Segment(200*Km, <<100*Km>>, <<0>>, <<Dec(300000001, -7), 30>>)>>
@@ -151,7 +152,7 @@ SphereBehaviour(s) ==
              \o [j \in 1..Len(ls) |-> Query("spherical", s[1], [sph |-> <<s[2], s[3], s[4]>>], s[5], ls[j], 3)]]
 
 (* a degenerate world: built once (the constructor may refuse it), then asked at every degenerate surface position *)
-EditDepthsKm == {0, 50, 100, 120, 150, 200, 350, 400}      \* includes every min / max depth of the area features
+EditDepthsKm == {0, 50, 100, 120, 150, 200, 300, 350, 400}      \* includes every min / max depth of the area features
 EditBehaviour(k, e) ==
   LET qs == SetToSeq(Surface \X EditDepthsKm)
       full == <<PT, PC(0), PC(2), PC(5), PC(6), PC(7), PC(8), PG(0, 2), PTag, PV>>
